@@ -1176,6 +1176,37 @@ def t_zip_enumerate_are_lazy_and_interleave():
         out.append("strict")
     out.append(list(zip()))
     return out
+
+
+def t_collections_models():
+    from collections import OrderedDict, defaultdict, deque
+    d = defaultdict(list)
+    d["a"].append(1)
+    d["a"].append(2)
+    d["b"]
+    c = defaultdict(int)
+    for ch in "abca":
+        c[ch] += 1
+    q = deque([1, 2, 3], maxlen=2)
+    q.append(4)
+    q.appendleft(0)
+    log = []
+    def gen():
+        for i in range(3):
+            log.append(i)
+            yield i
+    deque(gen(), maxlen=0)
+    r = deque()
+    r.extend([1, 2])
+    r.appendleft(0)
+    o = OrderedDict([("x", 1), ("y", 2)])
+    o["z"] = 3
+    out = [dict(d), "zz" in d, d.get("zz"), sorted(c.items()), list(q), q.maxlen, log, list(r), r.popleft(), r.pop(), len(r), list(o.items()), isinstance(d, dict)]
+    try:
+        deque().pop()
+    except IndexError:
+        out.append("empty")
+    return out
 '''
 
 
